@@ -152,7 +152,15 @@ Fixpoint tret_events (i : nat) (l : list (list (option N))) : list event :=
   | r :: l' => ENote ([84;82;69;84;32] ++ dec (N.of_nat i) ++ [32] ++ render_rets r)%list :: tret_events (S i) l'
   end.
 
-Definition run_conc (pipe : bool) (w : world) (progs : list (list cspec)) (impl_wire : list bytes) : world * list event :=
+(* the inbound messages are processed by the reader thread while the senders run; the model takes them after the sends
+   (they touch next_recv, the time stamps and the control record only -- with a memory persister, which these cases use,
+   the interleaving is not observable); no two persister puts overlap in the code as it is: OVERLAP 0 *)
+Definition note_overlap0 : event := ENote [79;86;69;82;76;65;80;32;48].
+Definition inbound_step (w : world) (s : sess) (inbound : list bytes) : sess * list event :=
+  let '(s1, e1) := match inbound with [] => (s, []) | _ => feed sc (dec_fn sc) [] (w_now w) inbound s end in
+  (s1, (e1 ++ if p_attached (s_per s) then [note_overlap0] else [])%list).
+
+Definition run_conc (pipe : bool) (w : world) (progs : list (list cspec)) (inbound : list bytes) (impl_wire : list bytes) : world * list event :=
   match w_sess w with
   | None => (w, [note_nosession])
   | Some s =>
@@ -163,11 +171,13 @@ Definition run_conc (pipe : bool) (w : world) (progs : list (list cspec)) (impl_
         let own := owners (map wire_item impl_wire) (map (fun p => map msg_item (pipe_msgs p)) calls) in
         let st0 := map (fun p => (p, O)) calls in
         let c := prun sc (w_now w) (sched_pipe own st0 ++ tail_refs O (after_pipe own st0)) (pinit s calls) in
-        (with_sess w (p_sess c), (p_wire c ++ tret_events O (map pt_rets (p_threads c)))%list)
+        let '(s1, e1) := inbound_step w (p_sess c) inbound in
+        (with_sess w s1, (p_wire c ++ e1 ++ tret_events O (map pt_rets (p_threads c)))%list)
       else
         let own := owners (map wire_item impl_wire) (map (fun p => map msg_item (prog_msgs p)) calls) in
         let c := trun sc (w_now w) (sched_thread (length own) own calls) (tinit s calls) in
-        (with_sess w (t_sess c), (t_wire c ++ tret_events O (map (fun th => map Some (tt_rets th)) (t_threads c)))%list)
+        let '(s1, e1) := inbound_step w (t_sess c) inbound in
+        (with_sess w s1, (t_wire c ++ e1 ++ tret_events O (map (fun th => map Some (tt_rets th)) (t_threads c)))%list)
     end
   end.
 
@@ -180,7 +190,7 @@ Fixpoint run_cops (w : world) (pipe : bool) (ops : list cop) (impl : trace) : tr
     let pipe' := match o with CPlain _ (Some b) => b | _ => pipe end in
     let '(w1, evs) := match o with
                       | CPlain oper _ => run_op sc w oper
-                      | CConc progs => run_conc pipe' w progs (outs_of (st_events ist))
+                      | CConc progs inbound => run_conc pipe' w progs inbound (outs_of (st_events ist))
                       end in
     let '(w2, sn) := snapshot w1 in
     mkStep evs sn :: run_cops w2 pipe' ops' (tl impl)
